@@ -47,6 +47,14 @@ EXC['EAB~'] = EAB_X
 EXC['EX~'] = EX_A
 
 
+class _Undef:
+    def __repr__(self):
+        return '<undefined>'
+
+
+UNDEF = _Undef()      # answer of an attribute site that is not defined (yet)
+
+
 class Event:
     __slots__ = ('site', 'ordinal', 'data', 'level', 'md', 'fired', 'ans',
                  'note')
@@ -75,6 +83,7 @@ class RunEnv:
         self.extra_names = {}
         self.shift = 0      # rotates 'rot' answers: differs per execution
         self.tag = ''       # appended to volatile tokens (per-thread mark)
+        self.defined = set()  # attribute sites defined so far (side effects)
 
     # -- registry -------------------------------------------------------
     def site(self, name):
@@ -123,6 +132,10 @@ class RunEnv:
     def materialise(self, r, name, k):
         if not isinstance(r, dict):
             return r
+        if 'defines' in r:               # side effect: attributes appear
+            self.defined.update(r['defines'])
+        if 'when_defined' in r:
+            return r['when_defined'] if name in self.defined else UNDEF
         if 'raise' in r:
             ev = self.log[-1]
             ev.fired = {'kind': 'raise', 'exc': r['raise'], 'scripted': 1}
@@ -196,7 +209,10 @@ class Obj:
         if n[:1] == '_':
             raise AttributeError(n)
         if n in self._sites:
-            return self._env.invoke('%s.%s' % (self._name.split('[')[0], n))
+            v = self._env.invoke('%s.%s' % (self._name.split('[')[0], n))
+            if v is UNDEF:
+                raise AttributeError(n)
+            return v
         if self._fb and (n in self._env.sites or n in self._env.extra_names):
             return self._env.extra_names.get(n) or self._env.sites[n]
         raise AttributeError(n)
